@@ -337,8 +337,77 @@ static void part_sha1(void) {
 	}
 }
 
+/* signing the root of a local aggregation chain whose input hash sits at a given level (the block-signing style call): the
+ * returned signature starts with that chain, its input hash is the chain's input hash and it verifies for that hash at the
+ * requested level */
+static void part_chain(void) {
+	static const uint64_t LV[] = {0, 1, 3, 17, 200};
+	int li, tr, corr;
+	for (tr = 0; tr < 2; tr++) for (li = 0; li < 5; li++) for (corr = 0; corr < 2; corr++) {
+		KSI_CTX *ctx;
+		KSI_AggregationHashChain *chn = NULL;
+		KSI_Signature *sig = NULL;
+		KSI_DataHash *hsh = NULL;
+		rs_chain c;
+		vbuf cb;
+		unsigned char h[RH_MAX_IMPRINT];
+		size_t hl;
+		int res, vres;
+		if (!vf_case_begin("sign-chain:tr%d:lvl%llu:corr%d", tr, (unsigned long long)LV[li], corr)) continue;
+		ctx = ku_ctx();
+		srv_install(handler, NULL);
+		memset(&S, 0, sizeof S);
+		S.behaviour = B_HONEST; S.version = 2; S.shape = 2; S.tail = 3;
+		if (KSI_CTX_setAggregator(ctx, tr == 0 ? "ksi+tcp://aggr.test:3332" : "ksi+http://aggr.test:8080/gt-signingservice", LOGIN, KEY) != KSI_OK) vf_harness_error("setAggregator");
+		memset(&c, 0, sizeof c);
+		c.aggr_time = 1; c.index[0] = 3; c.nindex = 1; c.alg = RH_SHA256;
+		hl = c.input_len = ref_fake_imprint(RH_SHA256, 42, c.input);
+		memcpy(h, c.input, hl);
+		c.nlinks = 1;
+		ref_link_imprint(&c.links[0], 1, RH_SHA256, 5, (uint64_t)corr * 2);
+		vb_init(&cb);
+		rs_serialize_chain(&c, &cb);
+		if (ku_parse_aggr_chain(ctx, cb.p, cb.n, &chn) != KSI_OK) vf_harness_error("local chain fixture");
+		res = KSI_Signature_signAggregationChain(ctx, (int)LV[li], chn, &sig);
+		vf_count("impl_calls", 1);
+		if (res != KSI_OK || sig == NULL) {
+			vf_outcome("sign-chain:error");
+			if (LV[li] + (uint64_t)corr * 2 + 2 <= 255) vf_fail("honest-reply-rejected", "KSI_Signature_signAggregationChain(level %llu) failed 0x%x although the aggregator answered honestly", (unsigned long long)LV[li], res);
+		} else {
+			unsigned char *raw = NULL;
+			size_t rl = 0;
+			rsig parsed;
+			rs_verdict v;
+			vf_outcome("sign-chain:success");
+			if (KSI_Signature_serialize(sig, &raw, &rl) != KSI_OK || rs_parse(raw, rl, &parsed) != 0) vf_fail("result-not-wellformed", "the returned signature cannot be serialized / is not understood by the reference parser");
+			else {
+				const unsigned char *dh; size_t dl;
+				rs_eval(&parsed, &v);
+				rs_document_hash(&parsed, &dh, &dl);
+				if (dl != hl || memcmp(dh, h, hl) != 0) vf_fail("result-other-hash", "signature input hash %s is not the chain's input hash %s", vf_hex(dh, dl), vf_hex(h, hl));
+				if (v.violated | v.uncomputable) vf_fail("result-inconsistent", "returned signature violates internal conditions 0x%x/0x%x", v.violated, v.uncomputable);
+				if (rs_first_level_corr(&parsed) != LV[li] + (uint64_t)corr * 2) vf_fail("result-other-level", "signature first level correction %llu, expected the link's %d plus the requested level %llu", (unsigned long long)rs_first_level_corr(&parsed), corr * 2, (unsigned long long)LV[li]);
+			}
+			KSI_free(raw);
+			KSI_DataHash_fromImprint(ctx, h, hl, &hsh);
+			vres = KSI_Signature_verifyWithPolicy(sig, hsh, LV[li], KSI_VERIFICATION_POLICY_INTERNAL, NULL);
+			if (vres != KSI_OK) vf_fail("result-not-for-level", "the returned signature does not verify for the chain's input hash at the requested level %llu (0x%x)", (unsigned long long)LV[li], vres);
+		}
+		KSI_DataHash_free(hsh);
+		KSI_Signature_free(sig);
+		KSI_AggregationHashChain_free(chn);
+		vb_free(&cb);
+		KSI_CTX_free(ctx);
+		rp_req_free(&S.last);
+		memset(&S.last, 0, sizeof S.last);
+		if (vf_alloc_live != 0) { vf_fail("leak", "%ld SDK allocations still live after freeing the context", vf_alloc_live); vf_alloc_live = 0; }
+		vf_case_end(1);
+	}
+}
+
 static void run(void) {
 	part_sha1();
+	part_chain();
 	part_main();
 }
 
